@@ -88,9 +88,9 @@ func normMsg(m protoreflect.Message) {
 			child := m.Mutable(fd).Message()
 			if isTimestamp(child.Descriptor()) {
 				truncTS(child, a.TSFormat)
-				continue
+			} else {
+				normMsg(child)
 			}
-			normMsg(child)
 			if proto.Size(child.Interface()) == 0 &&
 				(a.EmptyBehavior == sebufhttp.EmptyBehavior_EMPTY_BEHAVIOR_NULL || a.EmptyBehavior == sebufhttp.EmptyBehavior_EMPTY_BEHAVIOR_OMIT) {
 				m.Clear(fd)
